@@ -632,10 +632,69 @@ theorem shr_eq_shl_neg (a : List Nat) (k : Int) : shr w n a k = shl w n a (-k) :
     · have : -k < 0 := by omega
       rw [if_neg hneg, if_pos this, neg_neg]
 
-/-- shifts with a signed count. Left shifts are the ring operation `a·2^k`; right shifts (negative `k`) are the
-    floor division, provided the count stays below nbits or the value is non-negative (defect D8 otherwise). -/
-theorem shl_spec (hw : 0 < w) (hn : 0 < n) {a : List Nat} (ha : Canon w n a) (k : Int)
-    (hg : 0 ≤ k ∨ -k < n ∨ 0 ≤ toSigned n (toNat w a)) :
+theorem sign_neg (hw : 0 < w) (hn : 0 < n) {a : List Nat} (ha : Canon w n a) : sign w n a = decide (toSigned n (toNat w a) < 0) := by
+  rw [sign_canon hw hn ha, toSigned_of_lt hn ha.2.2]
+  have hA := ha.2.2
+  have hp : 2 ^ n = 2 ^ (n - 1) * 2 := by rw [← Nat.pow_succ]; congr 1; omega
+  by_cases h : toNat w a < 2 ^ (n - 1)
+  · rw [if_pos h]
+    have h2 : ¬ 2 ^ (n - 1) ≤ toNat w a := by omega
+    have h3 : ¬ ((toNat w a : Nat) : Int) < 0 := by omega
+    rw [decide_eq_false h2, decide_eq_false h3]
+  · rw [if_neg h]
+    have h1 : ((toNat w a : Nat) : Int) < ((2 ^ n : Nat) : Int) := by exact_mod_cast hA
+    have h2 : 2 ^ (n - 1) ≤ toNat w a := by omega
+    have h3 : ((toNat w a : Nat) : Int) - ((2 ^ n : Nat) : Int) < 0 := by omega
+    rw [decide_eq_true h2, decide_eq_true h3]
+
+/-- all ones: `for (i < nbits) setbit(i)` on a cleared value -/
+theorem allones_spec (hw : 0 < w) (hn : 0 < n) :
+    Canon w n (setRange w (zeros (nrBlocks w n)) 0 n true) ∧ toNat w (setRange w (zeros (nrBlocks w n)) 0 n true) = 2 ^ n - 1 := by
+  obtain ⟨p1, p2, p3⟩ := setRange_props hw (zeros_wf w (nrBlocks w n)) 0 n true (by omega)
+    (by rw [zeros_length]; exact nrBlocks_hi hw hn)
+  have hv : toNat w (setRange w (zeros (nrBlocks w n)) 0 n true) = 2 ^ n - 1 := by
+    apply Nat.eq_of_testBit_eq
+    intro j
+    rw [p3 j, toNat_zeros, Nat.testBit_two_pow_sub_one]
+    by_cases hj : j < n
+    · rw [if_pos ⟨by omega, hj⟩]; simp [hj]
+    · rw [if_neg (by omega)]; simp [hj]
+  have := Nat.two_pow_pos n
+  exact ⟨⟨by rw [p1, zeros_length], p2, by rw [hv]; omega⟩, hv⟩
+
+/-- `operator>>=` with a count ≥ nbits (repaired code): the sign fill, i.e. still the floor division by 2^s -/
+theorem shrPos_sat_spec (hw : 0 < w) (hn : 0 < n) {a : List Nat} (ha : Canon w n a) {s : Nat} (hsn : n ≤ s) :
+    Canon w n (shrPos w n a s) ∧
+    toNat w (shrPos w n a s) = ofSigned n (toSigned n (toNat w a) / ((2 ^ s : Nat) : Int)) := by
+  unfold shrPos
+  rw [if_pos (by omega), ha.1, sign_neg hw hn ha]
+  obtain ⟨r1, r2⟩ := toSigned_range hn (toNat w a)
+  have hle : M2 (n - 1) ≤ ((2 ^ s : Nat) : Int) := by
+    unfold M2; exact_mod_cast Nat.pow_le_pow_right (by omega) (by omega)
+  have hD : (0 : Int) < ((2 ^ s : Nat) : Int) := by exact_mod_cast Nat.two_pow_pos s
+  by_cases hx : toSigned n (toNat w a) < 0
+  · rw [decide_eq_true hx, if_pos rfl]
+    obtain ⟨hc, hv⟩ := allones_spec (w := w) hw hn
+    refine ⟨hc, ?_⟩
+    have hq : toSigned n (toNat w a) / ((2 ^ s : Nat) : Int) = -1 := by
+      have := (Int.ediv_emod_unique (a := toSigned n (toNat w a)) (q := -1) (r := toSigned n (toNat w a) + ((2 ^ s : Nat) : Int)) hD).mpr
+        ⟨by ring, by omega, by omega⟩
+      exact this.1
+    rw [hv, hq]
+    have h1 := Nat.two_pow_pos n
+    have hlt : 2 ^ n - 1 < 2 ^ n := by omega
+    refine eq_ofSigned_of_modEq hlt ?_
+    rw [Int.modEq_iff_dvd]
+    exact ⟨-1, by unfold M2; rw [Nat.cast_sub h1]; push_cast; ring⟩
+  · rw [decide_eq_false hx, if_neg (by simp)]
+    obtain ⟨hz, hzv⟩ := zeros_canon (w := w) hn
+    refine ⟨hz, ?_⟩
+    rw [hzv, Int.ediv_eq_zero_of_lt (by omega) (by omega)]
+    simp [ofSigned]
+
+/-- shifts with a signed count, every count: left shifts are the ring operation `a·2^k`, right shifts (negative `k`)
+    the floor division by 2^|k| (arithmetic shift, saturating to the sign fill from nbits on) -/
+theorem shl_spec (hw : 0 < w) (hn : 0 < n) {a : List Nat} (ha : Canon w n a) (k : Int) :
     Canon w n (shl w n a k) ∧ toNat w (shl w n a k) = IntegerSpec.shl n (toNat w a) k := by
   unfold IntegerSpec.shl IntegerSpec.wrap IntegerSpec.val IntegerSpec.shlZ shl
   by_cases h0 : k = 0
@@ -648,22 +707,7 @@ theorem shl_spec (hw : 0 < w) (hn : 0 < n) {a : List Nat} (ha : Canon w n a) (k 
       have hs : 0 < (-k).toNat := by omega
       by_cases hlt : (-k).toNat < n
       · exact shrPos_spec hw hn ha hs hlt
-      · -- count ≥ nbits: the code zeroes the value; correct for non-negative values only
-        have hx : 0 ≤ toSigned n (toNat w a) := by
-          rcases hg with h | h | h
-          · omega
-          · omega
-          · exact h
-        unfold shrPos
-        rw [if_pos (by omega), ha.1]
-        obtain ⟨hz, hzv⟩ := zeros_canon (w := w) hn
-        refine ⟨hz, ?_⟩
-        rw [hzv]
-        obtain ⟨_, r2⟩ := toSigned_range hn (toNat w a)
-        have hle : M2 (n - 1) ≤ ((2 ^ (-k).toNat : Nat) : Int) := by
-          unfold M2; exact_mod_cast Nat.pow_le_pow_right (by omega) (by omega)
-        rw [Int.ediv_eq_zero_of_lt hx (by omega)]
-        simp [ofSigned]
+      · exact shrPos_sat_spec hw hn ha (by omega)
     · rw [if_neg hneg, if_pos (by omega)]
       have hs : 0 < k.toNat := by omega
       obtain ⟨hc, hv⟩ := shlPos_spec hw hn ha hs
@@ -674,12 +718,11 @@ theorem shl_spec (hw : 0 < w) (hn : 0 < n) {a : List Nat} (ha : Canon w n a) (k 
       push_cast
       exact (modEq_toSigned n (toNat w a)).symm.mul (Int.ModEq.refl _)
 
-theorem shr_spec (hw : 0 < w) (hn : 0 < n) {a : List Nat} (ha : Canon w n a) (k : Int)
-    (hg : k ≤ 0 ∨ k < n ∨ 0 ≤ toSigned n (toNat w a)) :
+theorem shr_spec (hw : 0 < w) (hn : 0 < n) {a : List Nat} (ha : Canon w n a) (k : Int) :
     Canon w n (shr w n a k) ∧ toNat w (shr w n a k) = IntegerSpec.shr n (toNat w a) k := by
   rw [shr_eq_shl_neg]
   unfold IntegerSpec.shr
-  have := shl_spec hw hn ha (-k) (by rcases hg with h | h | h; exact Or.inl (by omega); exact Or.inr (Or.inl (by omega)); exact Or.inr (Or.inr h))
+  have := shl_spec hw hn ha (-k)
   unfold IntegerSpec.shl at this
   exact this
 
@@ -689,7 +732,7 @@ theorem toSigned_small {N v : Nat} (hN : 0 < N) (h : v < 2 ^ (N - 1)) : toSigned
 
 theorem shr_one_small (hw : 0 < w) (hn : 0 < n) {s : List Nat} (hs : Canon w (n + 1) s) (hlt : toNat w s < 2 ^ n) :
     Canon w (n + 1) (shr w (n + 1) s 1) ∧ toNat w (shr w (n + 1) s 1) = toNat w s / 2 := by
-  obtain ⟨hc, hv⟩ := shr_spec hw (by omega : 0 < n + 1) hs 1 (Or.inr (Or.inl (by omega)))
+  obtain ⟨hc, hv⟩ := shr_spec hw (by omega : 0 < n + 1) hs 1
   refine ⟨hc, ?_⟩
   rw [hv]
   unfold IntegerSpec.shr IntegerSpec.wrap IntegerSpec.val IntegerSpec.shlZ
@@ -806,21 +849,6 @@ theorem toNat_eq_zero_of_iszero : ∀ {l : List Nat}, iszero l = true → toNat 
     simp only [iszero, List.all_cons, Bool.and_eq_true, beq_iff_eq] at h
     have := toNat_eq_zero_of_iszero (l := xs) (by simpa [iszero] using h.2)
     rw [toNat, h.1, this]; simp
-
-theorem sign_neg (hw : 0 < w) (hn : 0 < n) {a : List Nat} (ha : Canon w n a) : sign w n a = decide (toSigned n (toNat w a) < 0) := by
-  rw [sign_canon hw hn ha, toSigned_of_lt hn ha.2.2]
-  have hA := ha.2.2
-  have hp : 2 ^ n = 2 ^ (n - 1) * 2 := by rw [← Nat.pow_succ]; congr 1; omega
-  by_cases h : toNat w a < 2 ^ (n - 1)
-  · rw [if_pos h]
-    have h2 : ¬ 2 ^ (n - 1) ≤ toNat w a := by omega
-    have h3 : ¬ ((toNat w a : Nat) : Int) < 0 := by omega
-    rw [decide_eq_false h2, decide_eq_false h3]
-  · rw [if_neg h]
-    have h1 : ((toNat w a : Nat) : Int) < ((2 ^ n : Nat) : Int) := by exact_mod_cast hA
-    have h2 : 2 ^ (n - 1) ≤ toNat w a := by omega
-    have h3 : ((toNat w a : Nat) : Int) - ((2 ^ n : Nat) : Int) < 0 := by omega
-    rw [decide_eq_true h2, decide_eq_true h3]
 
 /-- the magnitude operand of `idiv`: `bitcopy` into nbits+1 of `a` or `−a` -/
 theorem absOperand_spec (hw : 0 < w) (hn : 0 < n) (h64 : w ≠ 64 ∨ nrBlocks w n = 1) {a : List Nat} (ha : Canon w n a) :
@@ -949,7 +977,7 @@ theorem idiv_spec (hw : 0 < w) (hn : 0 < n) (h64 : w ≠ 64 ∨ nrBlocks w n = 1
       omega
     -- the shifted divisor
     rw [hd]
-    obtain ⟨cS, vS⟩ := shl_spec hw hN cB ((dn : Nat) : Int) (Or.inl (by omega))
+    obtain ⟨cS, vS⟩ := shl_spec hw hN cB ((dn : Nat) : Int)
     have vS' : toNat w (shl w (n + 1) B' ((dn : Nat) : Int)) = Y * 2 ^ dn := by
       rw [vS, hY]
       unfold IntegerSpec.shl IntegerSpec.wrap IntegerSpec.val IntegerSpec.shlZ
